@@ -190,6 +190,9 @@ def validate_evidence(path):
 
 
 def run_check(mod, tier, seed):
+    import warnings
+
+    warnings.filterwarnings("ignore")
     prop = mod.ID
     t_start = time.time()
     findings = load_findings()
